@@ -35,16 +35,16 @@ Qed.
 Lemma oversize_rejected (s : rstate Cx) d len :
   s_phase s = RL -> s_lflag s < 126 -> len = s_lflag s ->
   max_msg_size c <> 0 -> is_data (s_fop s) = true ->
-  max_msg_size c <= len + lenN (m_partial (s_m s)) ->
+  max_msg_size c < len + lenN (m_partial (s_m s)) ->
   iter Cx decomp c s d = PFail (WsErr 1009).
 Proof.
   intros Hp Hl -> Hm Hd Hb. unfold iter.
   rewrite (ph_header_skip Cx c s d) by congruence. cbn [bind].
   unfold ph_length, after_length. rewrite Hp.
   replace (s_lflag s =? 126) with false by lia. replace (126 <? s_lflag s) with false by lia.
-  rewrite size_applies_gen, size_reject_gen, Hd.
+  rewrite size_applies_gen, Hd.
   replace (negb (max_msg_size c =? 0)) with true by lia.
-  replace (max_msg_size c <=? s_lflag s + lenN (m_partial (s_m s))) with true by lia. reflexivity.
+  replace (size_reject _ _ _) with true by (unfold size_reject; lia). reflexivity.
 Qed.
 
 End Classes.
